@@ -135,8 +135,15 @@ func (t *ClientTransport) send(packet *parser.Packet) error {
 	if err != nil {
 		return err
 	}
-	defer w.Close()
-	return packet.Encode(w, true)
+	err = packet.Encode(w, true)
+	// The message is actually written when the writer is closed. Don't lose that error: after a failed
+	// write the websocket library leaves its writer locked until the connection is closed,
+	// so the caller has to learn about the failure and close the transport.
+	closeErr := w.Close()
+	if err == nil {
+		err = closeErr
+	}
+	return err
 }
 
 func (t *ClientTransport) Discard() {
